@@ -49,17 +49,19 @@ def run(ctx):
     for bb, t in main.calls():
         if callee_name(t["fn"].get("path", "")) == "push":
             a = mev0.call_args(bb)
-            if len(a) == 2 and a[1][0] == "agg" and a[1][1] == "tuple" and any(is_call(e, "create_nonce") for e in a[1][2]):
+            if len(a) == 2 and a[1][0] == "agg" and a[1][1] == "tuple" and any(is_call(e, "make_request") for e in a[1][2]):
                 pushed = (a[0], a[1][2])
     if pushed is None:
-        raise AnchorMissing("request queue of (nonce, request, socket) tuples in main")
+        raise AnchorMissing("request queue of (.., request, ..) tuples in main")
     cont, elems = pushed
     pos_kind = {}
     for i, e in enumerate(elems):
-        if is_call(e, "create_nonce"):
-            pos_kind[str(i)] = "nonce"
-        elif is_call(e, "make_request"):
+        if is_call(e, "make_request"):
             pos_kind[str(i)] = "request"
+            nonce_arg = e[2][1]
+            for j, e2 in enumerate(elems):
+                if e2 == nonce_arg:
+                    pos_kind[str(j)] = "nonce"
 
     # ------------------------------------------------------------------ (1) leaf kind agreement
     cfn, cev, routes = sm.routing(ctx, W)
@@ -171,25 +173,32 @@ def run(ctx):
         ev = Ev(P, main, assume={vterm: ("enum", VERSION, v)})
         live = ev.live()
         for bb, t in main.calls():
-            if bb not in live or callee_name(t["fn"].get("path", "")) != "timestamp_opt":
+            cname = callee_name(t["fn"].get("path", ""))
+            if bb not in live or cname not in ("timestamp_opt", "timestamp_nanos", "timestamp_millis_opt", "timestamp_micros", "timestamp"):
                 continue
             nts += 1
             a = ev.call_args(bb)
-            secs_t, ns_t = a[1], a[2]
             midp = ("field", ev.call_term(ext[0]), "midpoint")
             bad = None
+            # midpoints from the epoch through year 9999 in this version's unit
+            grid = [g for g in GRID if g // U <= 253402300799] + [253402300799 * U, 9214646400 * U + U - 1]
             try:
-                for m in GRID:
-                    s = arith_eval(secs_t, {midp: m})
-                    n = arith_eval(ns_t, {midp: m})
+                for m in grid:
                     es, en = m // U, (m % U) * (10 ** 9 // U)
-                    if es > 2 ** 63 - 1:
-                        continue
+                    if cname == "timestamp_opt":
+                        s = arith_eval(a[1], {midp: m})
+                        n = arith_eval(a[2], {midp: m})
+                    else:
+                        scale = {"timestamp_nanos": 10 ** 9, "timestamp_micros": 10 ** 6, "timestamp_millis_opt": 10 ** 3, "timestamp": 1}[cname]
+                        tot = arith_eval(a[1], {midp: m})
+                        s, n = tot // scale, (tot % scale) * (10 ** 9 // scale)
+                        if cname == "timestamp":
+                            n = en
                     if (s, n) != (es, en):
                         bad = "midpoint %d -> (%d s, %d ns), expected (%d, %d)" % (m, s, n, es, en)
                         break
             except NotArith as e:
-                bad = "conversion is not plain integer arithmetic over the midpoint (%s): secs=%s nsecs=%s" % (e, fmt(secs_t), fmt(ns_t))
+                bad = "conversion is not plain integer arithmetic over the midpoint (%s): %s" % (e, [fmt(x) for x in a[1:]])
             ctx.check("unit-agreement", "%s/seconds-and-nanoseconds@%s" % (v, "utc" if "Utc" in str(t["fn"].get("substs")) else "local"), bad is None,
                       "%s: (secs, nsecs) = (m div %d, (m mod %d) * %d)" % (v, U, U, 10 ** 9 // U),
                       "client converts the %s midpoint wrongly: %s" % (v, bad), main.loc(bb))
